@@ -108,6 +108,9 @@ def DS.stepLine (s : DS) (toks : List String) : DS × String :=
   match toks with
   | ["new"] => (DS.init, "ok")
   | _ =>
+    match parseAliasOp s.mem toks with
+    | some ws => let s' := s.run (ws.map (fun w => .write w.1 w.2)); (s', showSet s'.value)
+    | none =>
     match parseDSOps toks with
     | some ops => let s' := s.run ops; (s', showSet s'.value)
     | none => (s, "bad-op")
@@ -181,6 +184,9 @@ def SR.stepLine (s : SR) (toks : List String) : SR × String :=
     | some r, some os => let s' := s.step (.create r os); (s', showSet s'.value)
     | _, _ => (s, "bad-op")
   | _ =>
+    match parseAliasOp s.mem toks with
+    | some ws => let s' := s.run (ws.map (fun w => .write w.1 w.2)); (s', if s'.created then showSet s'.value else "-")
+    | none =>
     match parseSrcOp toks with
     | some (i, op) => let s' := s.step (.write i op); (s', if s'.created then showSet s'.value else "-")
     | none => (s, "bad-op")
